@@ -78,7 +78,7 @@ def run(ctx):
         ev.add_tlc("Lifecycle liveness: Quiet ~> CONNECTED (or known-finding escape), strong fairness per task, under an outer timeout", rl)
         if rl.violated:
             raise env.MachineryError(f"liveness model violates {rl.violated}")
-    runs = run_scenarios(rng, ctx.quick, which=lambda n: not n.startswith("susp"))
+    runs = run_scenarios(rng, ctx.quick, which=lambda n: not n.startswith("susp") and not n.startswith("sockfail"))
     pairs = validate_runs(ctx, runs, "c09")
     report(ctx, pairs)
     recs = [outcome(r_) for r_ in runs]
